@@ -344,9 +344,31 @@ func c14Uni(t string) string {
 	return t[:len(t)-n] + "\u00e9\u65e5\U0001F600" + t[len(t)-n:]
 }
 
+var c14Keywords = map[string]bool{"and": true, "break": true, "continue": true, "def": true, "elif": true, "else": true, "for": true,
+	"if": true, "in": true, "lambda": true, "load": true, "not": true, "or": true, "pass": true, "return": true, "while": true,
+	"as": true, "assert": true, "class": true, "del": true, "except": true, "finally": true, "from": true, "global": true, "import": true,
+	"is": true, "nonlocal": true, "raise": true, "try": true, "with": true, "yield": true, "None": true, "True": true, "False": true}
+
+// c14UniIdent respells an identifier with a non-ASCII letter appended (identifiers may contain Unicode letters)
+func c14UniIdent(t string) string {
+	if t == "" || c14Keywords[t] || !(t[0] == '_' || (t[0] >= 'a' && t[0] <= 'z') || (t[0] >= 'A' && t[0] <= 'Z')) {
+		return t
+	}
+	for i := 0; i < len(t); i++ {
+		c := t[i]
+		if !(c == '_' || (c >= 'a' && c <= 'z') || (c >= 'A' && c <= 'Z') || (c >= '0' && c <= '9')) {
+			return t
+		}
+	}
+	return t + "\u00e9\u03b2"
+}
+
 func c14UniTree(n *c14Node) {
-	if n.K == "str" {
+	switch n.K {
+	case "str":
 		n.A = c14Uni(n.A)
+	case "id", "dot", "def", "p", "pdef", "pkw", "pstar", "named": // the kinds whose attribute is a name
+		n.A = c14UniIdent(n.A)
 	}
 	for _, c := range n.C {
 		c14UniTree(c)
@@ -526,7 +548,7 @@ func (l *c14Layout) run(toks []string) error {
 		last = t
 		if !strings.HasPrefix(t, "@") {
 			if l.st.uni {
-				t = c14Uni(t)
+				t = c14UniIdent(c14Uni(t))
 			}
 			l.tok(t)
 			continue
